@@ -6,59 +6,57 @@ import CalicoVerif.Proofs.C11ChainTop
 /-!
 C11 — BPF policy programs reach the same verdict as the policy semantics.
 
-Staged as DESIGN §6 says.  What is proved (every theorem is for ALL inputs of
-the stated shape; no sampling):
+Everything below is proved for ALL inputs of the stated shape (no sampling), about the Lean model of
+`polprog.Builder` + `asm.Block` that the correspondence run compares INSTRUCTION BY INSTRUCTION with
+the real builder's output, executed by the eBPF-subset interpreter of `Model/C11Interp`, against the
+reference verdict of `Model/C11Ref`.
 
-* `polprog_verdict_partial` — **whole program, IPv4 and IPv6, not split**: for every
-  `Rules` configuration whose policy rules have allow/deny/pass/next-tier/log actions
-  (profile rules: the same; `pass` in a profile denies) and API-valid criteria (`ProgOK`), with or without
-  flow-log rule-hit recording, every packet state and every IP-set
-  environment, the instructions the builder model emits (the very list that is
-  compared slot by slot with the real builder's `asm.Insns`), run by the eBPF
-  interpreter from the program entry, end exactly as the REFERENCE verdict
-  demands: tail call through the static jump map to the allow / deny index with
-  `pol_rc` = 1 / 2, or (failed tail call) exit with TC_ACT_SHOT / XDP_DROP and
-  `pol_rc` = 10 / 2, or XDP_PASS for untracked policy that neither allows nor
-  denies.  Covers: all match criteria and their negations (protocol, CIDRs,
-  (IPv4: one masked word; IPv6: up to four sections with the early exit to the per-CIDR end label),
-  IP sets incl. the byte-exact 20- or 32-byte LPM key on the stack, numeric and named ports,
-  ICMP type/code), `log` rules (flag set, evaluation continues) and rule-hit recording
-  (the state is written only outside the packet fields), tiers, pass, end-of-tier actions, profiles, pre-DNAT /
-  apply-on-forward / normal host policy, host flags, XDP.
-* `lrun_program_partial` — the same statement on the label-level semantics.
-* `rule_guard` — the match part of ANY valid rule is a guard for the reference
-  `ruleMatch` (discharges the former `RuleGuarded` hypothesis).
-* `tiers_verdict`, `profiles_verdict` — rule → policy → tier / profiles, now
-  without the `RuleGuarded` hypothesis.
-* `assemble_sound_all` — the assembler model preserves the label-level
-  semantics of ANY event list; `asm_jumps_in_range` — every jump it resolves
-  is forward, ≤ 32767 and stays inside the program; `expand_noSplit_all` — no
-  split, no trampolines ⇒ one block of exactly the builder's plain events.
+Main theorems (the property), each with what it does NOT cover:
 
-`_partial` because not yet covered by theorems (they ARE covered by the
-instruction-exact tie and by the interpreter-vs-reference oracle on every
-generated packet): trampolines INSIDE the programs of a split build, a failing policy-jump tail
-call, and `Assemble` succeeding for programs beyond the trampoline stride.
+* `polprog_verdict_partial` — ONE program (IPv4 or IPv6) below the trampoline stride, not split
+  (`NoSplit`: splitting disabled or fewer jump-class instructions than the per-program limit):
+  for every `Rules` configuration whose policy and profile rules have allow/deny/pass/next-tier/log
+  actions and API-valid criteria (`ProgOK`), with or without rule-hit recording, every packet state
+  and IP-set environment, the instructions `Builder.Instructions` returns, run from the entry, end
+  exactly as the reference verdict demands: tail call through the static jump map to the allow /
+  deny index with `pol_rc` = 1 / 2, or (failed tail call) exit TC_ACT_SHOT / XDP_DROP with
+  `pol_rc` = 10 / 2, or XDP_PASS for untracked policy that neither allows nor denies.  Covers all
+  match criteria and negations (protocol; CIDRs — IPv4 one masked word, IPv6 up to four sections
+  with the early exit to the per-CIDR end label; IP sets incl. the byte-exact 20- or 32-byte LPM key;
+  numeric and named ports; ICMP type/code), `log` rules, rule-hit recording, tiers, pass,
+  end-of-tier actions, profiles, pre-DNAT / apply-on-forward / normal host policy, host flags, XDP.
+  NOT covered (`_partial`): programs beyond the stride and split builds (the next two theorems);
+  the successful build `hi` and the successful state lookup `hs` are hypotheses here
+  (`compile_total_partial` / `polprog_state_lookup_fails`).
+* `polprog_verdict_long_partial` — ONE program of ANY length (splitting disabled): the long-jump
+  trampolines of `asm.Block` are included.  NOT covered: the build succeeding beyond the stride
+  (hypothesis `hi`); splitting enabled with trampolines.
+* `polprog_chain_partial` — builds SPLIT into a chain of programs at any `maybeSplitProgram` call
+  site (before a rule, a CIDR, a named-port set, after a port range): landing pads, `next-program`
+  block, header + dispatch + reload of the continuation program; the chain of assembled programs
+  (`runChain`) ends as the reference verdict demands.  NOT covered: trampolines INSIDE the programs
+  of a split build (`ShortBlocks`), a failing policy-jump tail call and slot arithmetic beyond 32
+  bits (`ChainEnv`), the build succeeding (hypothesis `hi`).
+* `compile_total_partial`, `polprog_built_verdict_partial` — `Builder.Instructions` neither panics
+  nor does `Assemble` fail on valid input (`Buildable`), so the whole-program statement holds
+  without a build hypothesis.  NOT covered: split builds and programs beyond the stride.
+* `polprog_state_lookup_fails` — a failing state-map lookup drops the packet, state untouched
+  (unsplit programs of any length).
 
-* `polprog_chain_partial` — builds SPLIT into a chain of programs (landing pads, `next-program`
-  block, dispatch and reload in the continuation program): the chain of assembled programs ends as
-  the reference verdict demands, for splits at ANY of the builder's call sites (before a rule, a
-  CIDR, a named-port set, after a port range), as long as no program reaches the trampoline stride.
+Component theorems (about the models of `asm.Block`, for ALL event lists): `assemble_sound_all`
+(assembling preserves the label-level semantics), `asm_jumps_in_range` (every resolved jump is
+forward, ≤ 32767 and inside the program), `trampolines_sound_all` (inserting trampoline blocks
+preserves the semantics), `assemble_total_all`.
 
-* `polprog_state_lookup_fails` — a failing state-map lookup drops the packet, state untouched.
-* `polprog_verdict_long_partial` — unsplit programs of ANY length: the long-jump trampolines the
-  block inserts preserve the semantics (`trampolines_sound_all` for any event list and any
-  insertion, `expand_relayed_all`: the block bookkeeping performs such an insertion).
+Lemmas kept here for the reader but NOT in the theorem list of `checks/C11.json` (the listed theorems
+are proved from them): shape of `expand` — `expand_noSplit_all`, `expand_relayed_all`,
+`expand_cont_all`; intermediate layer (rule → policy → tier / profiles on the label-level
+semantics) — `rule_guard`, `tiers_verdict`, `profiles_verdict`, `lrun_program_partial` (the whole
+program before assembly).
 
-* `compile_total_partial` (IPv4 and IPv6, not split) — validity (`Buildable`) ⇒ `Builder.Instructions`
-  neither panics nor does `Assemble` fail; `polprog_built_verdict_partial` combines it with the
-  whole-program theorem, so no build hypothesis is left; `assemble_total_all` — the assembler is
-  total on closed event lists.
-
-The two places where the full statement used to be FALSE of the code (a PROFILE rule with action
-`log` panicked the builder; the protocol names icmpv6/udplite were compiled to protocol 0) are fixed
-in the code; `profile_log_label` and `proto_names_agree` are the positive statements, and profile
-`log` rules are now inside `ProgOK`/`Buildable`.
+Former findings, fixed in the code: `profile_log_label` (a PROFILE `log` rule logs and continues —
+profile log rules are inside `ProgOK`/`Buildable` now) and `proto_names_agree` (the builder's
+protocol table equals the API's for every known protocol).
 -/
 namespace CalicoVerif.C11
 
@@ -76,6 +74,10 @@ example : assemble [jump .exit, movImm64 R0 7, .label .exit, movImm64 R0 2, exit
 theorem asm_jumps_in_range (evs : List Ev) (prog : List Insn) (hp : InsPlain evs) (ha : assemble evs = some prog) :
     JumpsOK prog :=
   asm_jumps_ok evs none [] [] prog hp ha
+
+-- non-vacuity: the example program above satisfies the hypothesis
+example : InsPlain [jump .exit, movImm64 R0 7, .label .exit, movImm64 R0 2, exitI] := by
+  intro i hi; simp [movImm64, exitI, mk, jump, mkJ] at hi; rcases hi with rfl | rfl | rfl <;> decide
 
 /-- No splitting, no trampolines: one block with exactly the plain events. -/
 theorem expand_noSplit_all (c : Cfg) (xdp : Bool) (bevs : List BEv) (h : c.policyMapStride = 0)
@@ -103,7 +105,8 @@ theorem profiles_verdict (env : Env) (st : List Byte) (hc : SetCtx env st) (al :
       (profDec al (evalProfiles true env (pktOfD st) ps)) :=
   (profiles_block env st (pktOfD st) al ps noMatchID rid hal (hps.plain hc)).1
 
-/-- Whole program on the label-level semantics. -/
+/-- Whole program on the label-level semantics (`_partial`: the plain event list of ONE program, before
+assembly, trampolines and splitting — those are `polprog_verdict_partial` / `_long_partial` / `polprog_chain_partial`). -/
 theorem lrun_program_partial (env : Env) (st : List Byte) (r : Rules) (hok : ProgOK env st r)
     (hs : env.stateOK = true) :
     ∃ o, (lrun env (flat (compile env.c r)) (Mach.init st)).obs = some o ∧
@@ -147,7 +150,7 @@ def exRules : Rules :=
   { tiers := [{ endAction := EndAction.deny, endRuleID := 1, policies := [{ rules := [exRule1] }] }],
     profiles := [{ rules := [exRule2] }] }
 
-example (env : Env) (st : List Byte) (hc : SetCtx env st) : ProgOK env st exRules := by
+theorem exRules_progOK (env : Env) (st : List Byte) (hc : SetCtx env st) : ProgOK env st exRules := by
   have hr1 : RuleOK exRule1 := by
     refine ⟨?_, ?_, ?_, ?_⟩
     · intro pr h
@@ -240,7 +243,8 @@ and whose rules carry non-zero IP-set ids and at most one destination IP set (`B
 the calculation graph hands to the builder), the builder neither panics nor does `Assemble` fail:
 every jump it emits targets a label defined LATER in the program, at most 32767 instructions
 ahead.  `hshort`/`hstride`: the program fits one block below the trampoline stride
-(`SetTrampolineStride` caps the stride at 32667). -/
+(`SetTrampolineStride` caps the stride at 32667).  `_partial`: NOT covered are split builds and programs
+beyond the trampoline stride (there `Assemble` succeeding is checked by the instruction-exact run only). -/
 theorem compile_total_partial (c : Cfg) (r : Rules) (hb : Buildable r)
     (hnosplit : NoSplit c (flat (compile c r))) (hshort : (flat (compile c r)).length < c.trampolineStride)
     (hstride : c.trampolineStride ≤ 32768) :
@@ -258,7 +262,7 @@ theorem assemble_total_all (evs : List Ev) (hc : closedIn [] evs = true) (hlen :
   | some p => exact ⟨p, rfl⟩
 
 /-- The whole-program theorem without a build hypothesis: the program EXISTS and decides as the
-reference demands. -/
+reference demands (`_partial`: one unsplit program below the stride, like `compile_total_partial`). -/
 theorem polprog_built_verdict_partial (env : Env) (st : List Byte) (r : Rules) (hok : ProgOK env st r)
     (hb : Buildable r) (hs : env.stateOK = true) (hnosplit : NoSplit env.c (flat (compile env.c r)))
     (hshort : (flat (compile env.c r)).length < env.c.trampolineStride)
@@ -286,7 +290,8 @@ example : Buildable exRules := by
   · intro pol hp; simp [exRules] at hp
 example : exCfg.trampolineStride ≤ 32768 := by decide
 
--- the hypotheses are needed: a jump to a label that is never defined does not assemble
+-- `assemble_total_all`: a closed list, and why closedness is needed (a jump to an undefined label does not assemble)
+example : closedIn [] [jump .exit, movImm64 R0 7, .label .exit, movImm64 R0 2, exitI] = true := by decide
 example : assemble [jump .deny] = none := by decide
 
 /-! ### Unsplit programs of any length: trampolines -/
@@ -294,8 +299,8 @@ example : assemble [jump .deny] = none := by decide
 /-- **Whole program, unsplit, ANY length** (`policyMapStride = 0`): when the program is longer than the
 trampoline stride the block inserts long-jump trampolines (`JumpA skip; (t: JumpA t)*; skip:`) for the
 still unresolved jump targets; the instructions `Builder.Instructions` returns still end as the
-reference verdict demands.  (`hi`: the build succeeded — `compile_total_partial` proves that only
-for programs below the stride.) -/
+reference verdict demands.  `_partial`: NOT covered are builds with splitting enabled, and the build
+succeeding is a hypothesis (`hi`; `compile_total_partial` proves it only for programs below the stride). -/
 theorem polprog_verdict_long_partial (env : Env) (st : List Byte) (r : Rules) (hok : ProgOK env st r)
     (hs : env.stateOK = true) (hnosplit : env.c.policyMapStride = 0)
     (prog : List Insn) (hi : instructions env.c r = some (some [prog])) :
@@ -314,6 +319,10 @@ theorem expand_relayed_all (c : Cfg) (xdp : Bool) (bevs : List BEv) (hns : c.pol
     (hn : NoSkipJ (flat bevs)) : ∃ n, expand c xdp bevs = [n] ∧ Relayed (flat bevs) n :=
   expand_relayed c xdp bevs hns hn
 
+-- `expand_relayed_all`: no jump of the builder's output targets a trampoline-skip label
+example (env : Env) (st : List Byte) (hc : SetCtx env st) : NoSkipJ (flat (compile env.c exRules)) :=
+  compile_noSkipJ env st exRules (exRules_progOK env st hc)
+
 -- non-vacuity: with a trampoline stride of 20 the example program really gets trampolines
 -- (the block is longer than the plain event list) and still builds to one program
 example : (match expand { exCfg with trampolineStride := 20 } false (compile { exCfg with trampolineStride := 20 } exRules) with
@@ -326,6 +335,17 @@ example : (match instructions { exCfg with trampolineStride := 20 } exRules with
 -- `NoSplit` also covers the production setting: splitting enabled, fewer jumps than the limit
 example : NoSplit { exCfg with policyMapStride := 1000 } (flat (compile { exCfg with policyMapStride := 1000 } exRules)) :=
   Or.inr (by decide +kernel)
+
+-- `trampolines_sound_all`: a list with one trampoline block (for `deny`) in front of its second instruction
+example : Relayed [movImm64 R0 1, jump .deny, .label .deny, exitI]
+    (movImm64 R0 1 :: (trampBlock 0 [.deny] ++ jump .deny :: [.label .deny, exitI])) :=
+  .cons _ (.tramp 0 [.deny] _ (by intro t ht; simp at ht; subst ht; rfl) (by intro j hj; simp [jump, mkJ] at hj)
+    (Relayed.refl _))
+example : NoSkipJ [movImm64 R0 1, jump .deny, .label .deny, exitI] := by
+  intro i l h; simp [movImm64, exitI, mk, jump, mkJ] at h; rw [h.2]; rfl
+
+-- `polprog_state_lookup_fails`: an environment whose state lookup fails
+example : ({ c := exCfg, stateOK := false } : Env).stateOK = false := rfl
 
 /-- **The state-map lookup of the header fails** (no `cali_tc_state` entry): the program (unsplit, any
 length) exits with TC_ACT_SHOT (XDP: XDP_DROP) and leaves the state value, hence `pol_rc`, untouched. -/
@@ -351,7 +371,10 @@ continues in the addressed later program with fresh registers and stack and the 
 as the reference verdict demands.  `ChainEnv`: state lookups and policy-jump tail calls succeed, the
 slots `policyMapIndex + k * stride` of the `nmax + 1` programs fit 32 bits, the two jump maps differ.
 `ShortBlocks`: no program reaches the trampoline stride (so no trampoline is written inside a
-split program) — the part that keeps the theorem `_partial`. -/
+split program).  `_partial`: NOT covered are trampolines inside the programs of a split build
+(`ShortBlocks`), a FAILING policy-jump tail call (`ChainEnv` assumes success; the code then falls through
+to the `exit` after the call with the drop code), slot arithmetic beyond 32 bits, and the build succeeding
+(hypothesis `hi`). -/
 theorem polprog_chain_partial (env : Env) (st : List Byte) (r : Rules) (hok : ProgOK env st r) (nmax : Nat)
     (he : ChainEnv env nmax) (hsb : ShortBlocks env.c r.forXDP (compile env.c r) {})
     (hnb : (cont env.c r.forXDP (compile env.c r) {}).2.length ≤ nmax)
@@ -377,6 +400,8 @@ example : ShortBlocks exCfgSplit false (compile exCfgSplit exRules) {} := by
   unfold ShortBlocks; decide +kernel
 example : ChainEnv { c := exCfgSplit } 3 :=
   ⟨rfl, rfl, by decide, by decide, by decide, by decide, by decide, by decide⟩
+example : ProgOK { c := exCfgSplit } (List.replicate 512 0) exRules :=
+  exRules_progOK _ _ ⟨List.length_replicate, by decide⟩
 
 /-! ### Former findings, fixed in the code (de590aa, c209e06): now positive statements -/
 
